@@ -322,9 +322,15 @@ def loops_of(prog, b):
                 if from_param:
                     var = ('ok', deep_strip(b.call_term(c.t, c.pos, 0)))
                     exits = []
-                    for f in b.body_facts():
-                        if f["u"] in blocks and f["v"] not in blocks and f["rel"][0] == 'cmp':
-                            r = f["rel"]
+                    exit_rels = []
+                    for u in blocks:
+                        for v in b.succ(u):
+                            if v not in blocks:
+                                # everything known on arrival outside the loop (incl. facts carried by the value that decided the exit,
+                                # e.g. the None of an inlined bounds-checking helper)
+                                exit_rels.extend(r for r in b.facts_at((v, 0)) if r[0] == 'cmp')
+                    for r in exit_rels:
+                        if True:
                             sides = [deep_strip(r[2]), deep_strip(r[3])]
                             if any(s == deep_strip(var) or (s[0] == 'ok' and s == deep_strip(var)) for s in sides):
                                 other = [s for s in sides if s != deep_strip(var)]
